@@ -201,6 +201,9 @@ func (e *Exec) zero(t types.Type) Value {
 // load reads the full value of a cell.
 func (e *Exec) loadCell(c *Cell) Value {
 	if c.elems == nil {
+		if e.il != nil {
+			e.ilAccess(c, false)
+		}
 		return c.v
 	}
 	switch c.typ.Underlying().(type) {
@@ -221,6 +224,9 @@ func (e *Exec) loadCell(c *Cell) Value {
 
 func (e *Exec) storeCell(c *Cell, v Value) {
 	if c.elems == nil {
+		if e.il != nil {
+			e.ilAccess(c, true)
+		}
 		c.v = v
 		return
 	}
